@@ -1,5 +1,6 @@
 pub mod c01;
 pub mod c03;
+pub mod c04;
 pub mod c07;
 pub mod c08;
 pub mod c09;
@@ -14,5 +15,5 @@ pub mod c09b;
 use crate::runner::Check;
 
 pub fn all() -> Vec<Check> {
-    vec![c01::check(), sigs::check_c02(), c03::check(), sigs::check_c06(), c07::check(), c08::check(), c09::check(), c10::check(), c14::check(), c16::check(), c17::check(), c18::check()]
+    vec![c01::check(), sigs::check_c02(), c03::check(), c04::check(), sigs::check_c06(), c07::check(), c08::check(), c09::check(), c10::check(), c14::check(), c16::check(), c17::check(), c18::check()]
 }
